@@ -130,7 +130,7 @@ Init ==
                    AllPq, {"ts_us"}, {TRUE}, {"mid", "top"}, PqFamCols)
     \/ "pq_time" \in Families /\           \* every time column type x time_format x unit
           InitWith({"parquet"}, {}, AllFmts, {}, {}, {}, {"time", "ts"}, {"first", "last"}, {},
-                   {"int64"}, AllPqTime, {FALSE}, {"mid"}, 1)
+                   {"int64"}, AllPqTime, {FALSE}, {"mid", "top"}, 1)
 
 -----------------------------------------------------------------------------
 \* stringsToTimeMicros / oneTimeValueToMicros: does the whole time column convert?
@@ -189,6 +189,7 @@ CsvDecide ==
 -----------------------------------------------------------------------------
 \* parquet: the time column sits first or last in the file; columns are converted in file order
 PqTimeOK == /\ PqTimeSupported(pq.ttype)
+            /\ ~(U64Check /\ PqOverflows(pq.ttype, pq.range))                \* uint64 time value above 2^63-1 (4025fa4)
             /\ (pq.ttype \in {"string", "binary", "fsb"} => tfmt = "")     \* RFC3339 text under an explicit epoch format fails
 
 PqStep ==
